@@ -356,7 +356,10 @@ fn main() {
         let mut by_set: std::collections::BTreeMap<Vec<&'static str>, (Vec<&'static str>, Vec<String>)> = Default::default();
         for (steps, t) in &chains {
             rep.evaluations += 1;
-            rep.bump(&format!("c20/builder_chains/len{}", steps.iter().filter(|s| **s != "new_custom").count().min(11)));
+            rep.bump(&format!("c20/builder_chains/len{}", steps.iter().filter(|s| **s != "new_custom" && !s.starts_with("ctor:")).count().min(11)));
+            if steps.iter().any(|s| s.starts_with("ctor:")) {
+                rep.bump("c20/other_constructors");
+            }
             if steps.contains(&"new_custom") {
                 rep.bump("c20/builder_chains/from_new_custom");
             }
@@ -375,7 +378,7 @@ fn main() {
                 }
             }
             // every order of the same set — and both constructors, AppBuilder::new() and new_custom() — behave identically
-            let mut set: Vec<&'static str> = steps.iter().copied().filter(|s| *s != "new_custom").collect();
+            let mut set: Vec<&'static str> = steps.iter().copied().filter(|s| *s != "new_custom" && !s.starts_with("ctor:")).collect();
             set.sort();
             if let Some((other, t0)) = by_set.get(&set) {
                 rep.bump("c20/permutation_pairs_compared");
